@@ -182,6 +182,16 @@ CHECKS["C18"] = dict(
     note="Step points are the stand-in operations of hook H3; lock hand-off is decided by the controller (virtual parking), never by an OS race, so every scenario is deterministic. More than two suspended writers are not enumerated.",
 )
 
+CHECKS["C18"]["text"] += " Clause (ii): nfs_voucher::get_base_time_unlocked and observe_file_time are run alone while a thread is suspended after each of the first 13 steps of add_trusted_path's update of the module-wide base time (holding its writer lock): no lock operation, no waiting, at most 4 loads."
+CHECKS["C19"] = dict(
+    engine="vtime_mc",
+    category="model_checking",
+    design="DESIGN.md section 4, C19",
+    technique="exhaustive enumeration of call histories (15-op alphabet, depth 3-4) of the real nfs_voucher module, each history in a fresh child process against real files on two real devices, invariant checked after every call",
+    text="All sequences to depth 3 (quick) / 4 (thorough) over {add_trusted_path, observe a stale / a newer trusted file / an untrusted file, maybe_observe (trusted / untrusted), scan_base_time, get_base_time with now = real now / base+100 ms / base+10 s, get_base_time_unlocked, sleep 120 ms (lets the 100 ms throttle expire), touch the stale file, replace the trusted path by a symlink onto the other device, register the other device too}; the trusted role alternates between tmpfs (/dev/shm) and the root file system. After every call the child reads the base time and stats its files: the base never decreases, changes only to the change-time of a file on a trusted device (or of the path being registered by that very call), untrusted observations report nothing, every pair returned passes VouchedTime::check.",
+    note="Needs two writable devices (exits 2, no verdict, otherwise). Change-times come from the kernel's coarse clock; the harness waits 12 ms after each call so later touches are strictly later. The oracle does not depend on which throttle branch was taken. Concurrency inside nfs_voucher is out of scope.",
+)
+
 ALL = ["C%02d" % i for i in range(1, 21)]
 
 NOT_YET = "check not built yet (work in progress; see DESIGN.md section 4 for the planned bounded-exhaustive formulation)"
